@@ -11,12 +11,13 @@ V, I, S = A.Var, A.Int, A.Str
 NAMES = ["x", "y"]
 TOKENS = []
 for n in NAMES:
-    TOKENS += ["D " + n, "DL " + n, "DO " + n, "DF " + n, "A " + n, "O " + n, "R " + n, "AL " + n]
-TOKENS += ["D _", "DL _", "DO _", "R _", "A _", "O _"]
+    TOKENS += ["D " + n, "DL " + n, "DO " + n, "DF " + n, "A " + n, "O " + n, "R " + n, "AL " + n, "AO " + n, "AOR " + n, "DOR " + n, "ALR " + n]
+TOKENS += ["D _", "DL _", "DO _", "R _", "A _", "O _", "DF _", "AOR _"]
 TOKENS += ["{", "P x{", "P _{", "FOR x{", "FOR _{", "FORP y{", "}"]
 
 
 def show(e):
+    # containers (collected rests) print as they are; functions as "func"
     return A.pr(A.call("show", e))
 
 
@@ -45,6 +46,14 @@ def build(seq):
             cur.append(A.Assign(V(n), val()))
         elif op == "AL":
             cur.append(A.Assign(A.lst(V("_"), V(n)), A.lst(I(0), val())))
+        elif op == "AO":
+            cur.append(A.Assign(A.ObjectE([A.Pair(S("k"), V(n))]), A.obj(("k", val()))))
+        elif op == "AOR":
+            cur.append(A.Assign(A.ObjectE([A.Pair(S("k"), V("_")), A.Single(V(n), False, True)]), A.obj(("k", I(0)), ("z", val()))))
+        elif op == "DOR":
+            cur.append(A.Declare(A.ObjectE([A.Pair(S("k"), V("_")), A.Single(V(n), False, True)]), A.obj(("k", I(0)), ("z", val()))))
+        elif op == "ALR":
+            cur.append(A.Assign(A.ListE([(V("_"), False), (V(n), False)], True), A.lst(I(0), val())))
         elif op == "O":
             cur.append(A.OpAssign("+", V(n), I(1000)))
         elif op == "R":
